@@ -39,7 +39,8 @@ DTYPES = list(V.DTYPE_POOLS)
 SITES = ['reindex_fill', 'shift_fill', 'series_concat', 'frame_concat_rows', 'frame_concat_cols_union', 'assign_element',
          'assign_array', 'assign_frame_element', 'fillna_element', 'fillna_series', 'from_records', 'series_from_list', 'row_consolidation',
          'values_2d', 'iter_tuple', 'index_append', 'index_union', 'from_overlay', 'frame_reindex_fill', 'frame_shift_fill',
-         'fillna_forward_axis1', 'unset_index', 'insert_fill', 'series_from_dict', 'frame_from_dict_records', 'index_from_list']
+         'fillna_forward_axis1', 'unset_index', 'insert_fill', 'series_from_dict', 'frame_from_dict_records', 'index_from_list',
+         'fillna_forward_axis1_block', 'fillna_backward_axis1_block']
 
 
 def _is_str(dt):
@@ -83,7 +84,12 @@ def generate(ctx):
         reps = 1
     for site, a, b in work:
         for _ in range(reps):
-            yield {'site': site, 'a': a, 'b': b, 'av': _elems(a, 3, rng), 'bv': _elems(b, 3, rng)}
+            order = list(range(6))
+            rng.shuffle(order)
+            yield {'site': site, 'a': a, 'b': b, 'av': _elems(a, 3, rng), 'bv': _elems(b, 3, rng),
+                   # order: arrangement of the six supplied elements for the build-from-Python-values sites (0..2 = av, 3..5 = bv);
+                   # mask: which cells of the multi-column block sites are made missing
+                   'order': order[:rng.choice([3, 4, 5, 6])], 'mask': [rng.random() < 0.45 for _ in range(9)]}
 
 
 # --------------------------------------------------------------------------------------
@@ -117,6 +123,7 @@ class Obs:
     def __init__(self):
         self.cells = []
         self.dtypes = []
+        self.fed = None  # build-from-Python-values sites: the elements actually handed to the constructor
 
     def cell(self, supplied, got, role):
         self.cells.append((supplied, got, role))
@@ -218,24 +225,29 @@ def run_site(case):
             else:
                 o.cell(v, r.iloc[i], 'a')
     elif site == 'from_records':
-        rows = [(av[0], 1), (bv[0], 2), (av[1], 3)]
-        r = sf.Frame.from_records(rows, columns=('c', 'k'))
-        o.cell(av[0], r.iloc[0, 0], 'a')
-        o.cell(bv[0], r.iloc[1, 0], 'b')
-        o.cell(av[1], r.iloc[2, 0], 'a')
+        seq = _ordered(case) or ((av[0], 'a'), (bv[0], 'b'), (av[1], 'a'))
+        o.fed = [v for v, _ in seq]
+        r = sf.Frame.from_records([(v, i) for i, (v, _) in enumerate(seq)], columns=('c', 'k'))
+        for i, (v, role) in enumerate(seq):
+            o.cell(v, r.iloc[i, 0], role)
     elif site == 'series_from_list':
-        r = sf.Series([av[0], bv[0], av[1], bv[1]])
-        for i, (v, role) in enumerate(((av[0], 'a'), (bv[0], 'b'), (av[1], 'a'), (bv[1], 'b'))):
+        seq = _ordered(case) or ((av[0], 'a'), (bv[0], 'b'), (av[1], 'a'), (bv[1], 'b'))
+        o.fed = [v for v, _ in seq]
+        r = sf.Series([v for v, _ in seq])
+        for i, (v, role) in enumerate(seq):
             o.cell(v, r.iloc[i], role)
     elif site == 'series_from_dict':
-        r = sf.Series.from_dict({'p': av[0], 'q': bv[0], 'r': av[1]})
-        o.cell(av[0], r.loc['p'], 'a')
-        o.cell(bv[0], r.loc['q'], 'b')
-        o.cell(av[1], r.loc['r'], 'a')
+        seq = _ordered(case) or ((av[0], 'a'), (bv[0], 'b'), (av[1], 'a'))
+        o.fed = [v for v, _ in seq]
+        r = sf.Series.from_dict({'pqrstu'[i]: v for i, (v, _) in enumerate(seq)})
+        for i, (v, role) in enumerate(seq):
+            o.cell(v, r.loc['pqrstu'[i]], role)
     elif site == 'frame_from_dict_records':
-        r = sf.Frame.from_dict_records([{'c': av[0], 'k': 1}, {'c': bv[0], 'k': 2}])
-        o.cell(av[0], r.iloc[0, 0], 'a')
-        o.cell(bv[0], r.iloc[1, 0], 'b')
+        seq = _ordered(case) or ((av[0], 'a'), (bv[0], 'b'))
+        o.fed = [v for v, _ in seq]
+        r = sf.Frame.from_dict_records([{'c': v, 'k': i} for i, (v, _) in enumerate(seq)])
+        for i, (v, role) in enumerate(seq):
+            o.cell(v, r.iloc[i, 0], role)
     elif site in ('row_consolidation', 'values_2d', 'iter_tuple'):
         f = sf.Frame.from_items([('ca', V.to_array(av, a)), ('cb', V.to_array(bv, b))])
         for i in range(n):
@@ -268,6 +280,7 @@ def run_site(case):
         labels = _distinct([av[0], bv[0], av[1]])
         if len(labels) < 2:
             return None
+        o.fed = list(labels)
         idx = sf.Index(labels)
         for v, g in zip(labels, list(idx)):
             o.cell(v, g, 'a' if any(v is x for x in av) else 'b')
@@ -324,6 +337,39 @@ def run_site(case):
                     o.cell(av[i], r.iloc[i, 1], 'a')
             else:
                 o.cell(bv[i], r.iloc[i, 1], 'b')
+    elif site in ('fillna_forward_axis1_block', 'fillna_backward_axis1_block'):
+        # a column of dtype a beside a two-column 2-D block of dtype b with missing cells: values carried across the block
+        # boundary (and within the block) must arrive unchanged
+        from static_frame.core.type_blocks import TypeBlocks
+        mb = _missing_for(b)
+        if mb is None:
+            return None
+        mask = case.get('mask') or [False] * 9
+        bw = bv[1:] + bv[:1]
+        col1 = [mb if mask[i] else bv[i] for i in range(n)]
+        col2 = [mb if mask[3 + i] else bw[i] for i in range(n)]
+        if not any(canon.is_missing(v) for v in col1 + col2):
+            return None
+        block = np.empty((n, 2), dtype=np.dtype(b))
+        block[:, 0] = V.to_array(col1, b)
+        block[:, 1] = V.to_array(col2, b)
+        block.flags.writeable = False
+        a_arr = V.to_array(av, a)
+        a_arr.flags.writeable = False
+        forward = site.startswith('fillna_forward')
+        f = sf.Frame(TypeBlocks.from_blocks([a_arr, block] if forward else [block, a_arr]))
+        r = f.fillna_forward(axis=1) if forward else f.fillna_backward(axis=1)
+        for i in range(n):
+            line = [(av[i], 'a'), (col1[i], 'b'), (col2[i], 'b')] if forward else [(av[i], 'a'), (col2[i], 'b'), (col1[i], 'b')]
+            carried = None
+            for j, (v, role) in enumerate(line):
+                pos = j if forward else 2 - j
+                if canon.is_missing(v) and carried is not None:
+                    o.cell(carried[0], r.iloc[i, pos], carried[1])
+                else:
+                    o.cell(v, r.iloc[i, pos], role)
+                    if not canon.is_missing(v):
+                        carried = (v, role)
     elif site == 'unset_index':
         if any(canon.is_missing(v) for v in av):
             return None
@@ -344,6 +390,27 @@ def run_site(case):
     else:
         raise KeyError(site)
     return o
+
+
+def _missing_for(dt):
+    k = np.dtype(dt).kind
+    if k == 'f':
+        return float('nan')
+    if k == 'c':
+        return complex(float('nan'), 0)
+    if k == 'O':
+        return None
+    if k in 'Mm':
+        return np.array('NaT', dtype=dt)[()]
+    return None
+
+
+def _ordered(case):
+    """the supplied elements in the case's arrangement: [(element, role)], or None for cases recorded before arrangements existed."""
+    if not case.get('order'):
+        return None
+    pool = [(v, 'a') for v in case['av']] + [(v, 'b') for v in case['bv']]
+    return [pool[i] for i in case['order']]
 
 
 def _same_label(x, y):
@@ -389,8 +456,9 @@ def check(case, ctx):
         klass = dict(base, role=role, supplied_kind=cs_sup[0], got_kind=cs_got[0],
                      supplied_big_int=_big(sup),
                      any_big_int=any(_big(v) for v in all_supplied),
-                     float_partner=any(isinstance(v, (float, np.floating, complex, np.complexfloating)) for v in all_supplied)
-                     or np.dtype(a).kind in 'fc' or np.dtype(b).kind in 'fc',
+                     float_partner=(any(isinstance(v, (float, np.floating, complex, np.complexfloating)) for v in o.fed) if o.fed is not None else
+                                    (any(isinstance(v, (float, np.floating, complex, np.complexfloating)) for v in all_supplied)
+                                     or np.dtype(a).kind in 'fc' or np.dtype(b).kind in 'fc')),
                      signed_unsigned_mix={np.dtype(a).kind, np.dtype(b).kind} == {'i', 'u'},
                      python_values_route=site in ('series_from_list', 'from_records', 'series_from_dict', 'frame_from_dict_records', 'index_from_list'))
         ctx.violation('element_changed', detail={'supplied': cs_sup, 'read_back': cs_got, 'case': repr(case)[:600]}, klass=klass)
